@@ -273,13 +273,14 @@ def gen_frame(r):
 def gen_assert(r, clients, counter, regen_biased=False):
     c = r.pick(clients)['id']
     kind = r.pick(KINDS)
-    what = r.weighted([(5, 'string'), (3, 'textfile'), (1, 'textfiles'),
+    what = r.weighted([(5, 'string'), (3, 'textfile'), (2, 'textfiles'),
                        (2, 'binary'), (2, 'df')])
     i = counter[0]
     counter[0] += 1
     if what in ('string', 'textfile', 'textfiles'):
-        n_files = r.randint(1, 2) if what == 'textfiles' else 1
-        cases = [gen_text_case(r, 'x', identical_p=0.5)
+        n_files = r.randint(1, 3) if what == 'textfiles' else 1
+        cases = [gen_text_case(r, 'x', identical_p=0.5 if n_files == 1
+                               else 0.3)
                  for _ in range(n_files)]
         opts = cases[0]['opts'] if r.chance(0.4) else {}
         refs = ['s%d_%d.txt' % (i, j) for j in range(n_files)]
@@ -1294,15 +1295,45 @@ def check_c15(ctx, op, mode, outcome, exc, delta, log, rpaths, apaths,
     exclusions = any(opts.get(k) for k in ('ignore_substrings',
                                            'ignore_patterns', 'remove_lines',
                                            'preprocess'))
-    pp = re.findall(r'Compare post-processed with:\n\s+(?:diff|fc)\s+(\S+)'
-                    r'\s+(\S+)', msg)
-    if not exclusions or op['op'] == 'assert_textfiles':
+    if not exclusions:
         return
-    try:
-        e_text = read_text_model(rpaths[0])
-        a_text = op['actual'] if 'actual' in op else read_text_model(apaths[0])
-    except UnicodeDecodeError:
-        return
+    if op['op'] == 'assert_textfiles':
+        # one block per failing pair; the pair's post-processed files, if
+        # any, are named straight after its own compare command
+        pairs = []
+        for ap, rp in zip(apaths, rpaths):
+            m = re.search(
+                r'Compare (?:raw )?with:\n\s+(?:diff|fc)\s+%s\s+%s[ \t]*\n'
+                r'(?:\s*\n?Compare post-processed with:\n\s+(?:diff|fc)\s+'
+                r'(\S+)\s+(\S+))?' % (re.escape(os.path.abspath(ap)),
+                                      re.escape(rp)), msg)
+            if not m:
+                continue        # pair not reported as failing
+            try:
+                pairs.append((read_text_model(ap), read_text_model(rp),
+                              [(m.group(1), m.group(2))] if m.group(1)
+                              else []))
+            except UnicodeDecodeError:
+                continue
+        if len(pairs) > 1:
+            ctx.stats['probes']['several_failing_pairs_in_one_assertion'] \
+                += 1
+    else:
+        pp = re.findall(r'Compare post-processed with:\n\s+(?:diff|fc)\s+'
+                        r'(\S+)\s+(\S+)', msg)
+        try:
+            e_text = read_text_model(rpaths[0])
+            a_text = op['actual'] if 'actual' in op \
+                else read_text_model(apaths[0])
+        except UnicodeDecodeError:
+            return
+        pairs = [(a_text, e_text, pp)]
+    for a_text, e_text, pp in pairs:
+        check_c15_pp(ctx, op, entry, opts, msg, a_text, e_text, pp)
+
+
+def check_c15_pp(ctx, op, entry, opts, msg, a_text, e_text, pp):
+    W = ctx.W
     v, info = textcmp.verdict(a_text, e_text, opts)
     if v == 'ABSTAIN':
         ctx.stats['abstain']['postprocessed_' + info['abstain']] += 1
